@@ -25,14 +25,15 @@ def _conv(draw):
     W = draw(st.integers(max(1, kw - 2 * pw), 7))
     return {'kind': 'conv', 'cin': draw(st.integers(1, 4)), 'cout': draw(st.integers(1, 4)), 'k': [kh, kw], 's': [sh, sw],
             'p': [ph, pw], 'H': H, 'W': W, 'N': draw(st.integers(1, 4)), 'bias': draw(st.booleans()),
-            'seed': draw(st.integers(0, 2 ** 20)), 'int_args': draw(st.booleans())}
+            'seed': draw(st.integers(0, 2 ** 20)), 'int_args': draw(st.booleans()),
+            'permuted': draw(st.sampled_from([False, False, True]))}
 
 
 @st.composite
 def _linear(draw):
     lead = draw(st.lists(st.integers(1, 3), min_size=1, max_size=4))
     return {'kind': 'linear', 'in': draw(st.integers(1, 6)), 'out': draw(st.integers(1, 5)), 'lead': lead,
-            'bias': draw(st.booleans()), 'seed': draw(st.integers(0, 2 ** 20))}
+            'bias': draw(st.booleans()), 'seed': draw(st.integers(0, 2 ** 20)), 'permuted': draw(st.sampled_from([False, False, True]))}
 
 
 def _rel(a, b):
@@ -47,7 +48,7 @@ class C15(Prop):
     title = 'Layer helpers keep factors, gradients and weights in one consistent layout'
     rule = ('Hypothesis draws conv2d geometries (Cin,Cout 1-4, kernel 1-3 x 1-3, stride 1-3 x 1-3, zero padding 0-2 x 0-2, input '
             '1-7 x 1-7 incl. sizes not divisible by the stride, batch 1-4, bias on/off, int or tuple arguments) and linear layers (in 1-6, '
-            'out 1-5, bias on/off, input rank 2-5); float64 data is a function of a drawn seed. Oracles: (a) get_grad() after a real '
+            'out 1-5, bias on/off, input rank 2-5), inputs contiguous or dense non-contiguous (channels_last / transposed storage); float64 data is a function of a drawn seed. Oracles: (a) get_grad() after a real '
             'forward/backward equals sum over samples and positions of g (x) [patch|1] with patches from torch.nn.functional.unfold; '
             '(b) _extract_patches == reshaped F.unfold (exact), input left unmodified; (c) set_grad(M); get_grad() == M (exact) and '
             'parameter .grad shapes/contiguity kept; (d) factor shapes == advertised shapes; (e) A and G factors equal the second moment of '
@@ -57,8 +58,8 @@ class C15(Prop):
                    'float64 helper-level comparison with relative tolerance 1e-10 (the operations differ only in summation order)']
     examples = {'quick': 600, 'thorough': 3000}
     shards = {'quick': 2, 'thorough': 16}
-    required_labels = {'quick': ['kind=conv', 'kind=linear', 'nontrivial=True', 'asym_pad=True', 'nondivisible=True'],
-                       'thorough': ['kind=conv', 'kind=linear', 'nontrivial=True', 'asym_pad=True', 'nondivisible=True']}
+    required_labels = {'quick': ['kind=conv', 'kind=linear', 'nontrivial=True', 'asym_pad=True', 'nondivisible=True', 'permuted=True'],
+                       'thorough': ['kind=conv', 'kind=linear', 'nontrivial=True', 'asym_pad=True', 'nondivisible=True', 'permuted=True']}
 
     def strategy(self, tier):
         return st.one_of(_conv(), _conv(), _linear())
@@ -138,6 +139,8 @@ class C15(Prop):
             for prm in module.parameters():
                 prm.copy_(torch.randn(prm.shape, generator=gen, dtype=torch.float64))
         x = torch.randn((c['N'], c['cin'], c['H'], c['W']), generator=gen, dtype=torch.float64)
+        if c.get('permuted'):
+            x = x.contiguous(memory_format=torch.channels_last)
         helper = get_module_helper(module)
         unf = F.unfold(x, kernel_size=k, padding=p, stride=s)          # (N, C*kh*kw, L)
         L = unf.shape[-1]
@@ -156,7 +159,7 @@ class C15(Prop):
             rows = torch.cat([rows, torch.ones(rows.shape[0], 1, dtype=torch.float64)], 1)
         nondiv = ((c['H'] + 2 * p[0] - k[0]) % s[0] != 0) or ((c['W'] + 2 * p[1] - k[1]) % s[1] != 0)
         labels = {'kind': 'conv', 'bias': c['bias'], 'asym_pad': p[0] != p[1], 'asym_stride': s[0] != s[1],
-                  'asym_kernel': k[0] != k[1], 'nondivisible': nondiv}
+                  'asym_kernel': k[0] != k[1], 'nondivisible': nondiv, 'permuted': bool(c.get('permuted'))}
         nt = (max(k) > 1 and c['cin'] >= 2) or p[0] != p[1] or s[0] != s[1] or k[0] != k[1]
         return self._common(helper, module, x, rows, lambda R: R.reshape(c['N'], c['cout'], L).transpose(1, 2).reshape(-1, c['cout']),
                             labels, nt, 1.0 / L, 1.0 / L)
@@ -170,12 +173,14 @@ class C15(Prop):
             for prm in module.parameters():
                 prm.copy_(torch.randn(prm.shape, generator=gen, dtype=torch.float64))
         x = torch.randn(tuple(c['lead']) + (c['in'],), generator=gen, dtype=torch.float64)
+        if c.get('permuted'):
+            x = x.transpose(0, -1).contiguous().transpose(0, -1)      # dense, same values, non-contiguous
         helper = get_module_helper(module)
         rows = x.reshape(-1, c['in'])
         if c['bias']:
             rows = torch.cat([rows, torch.ones(rows.shape[0], 1, dtype=torch.float64)], 1)
         rank = len(c['lead']) + 1
-        labels = {'kind': 'linear', 'bias': c['bias'], 'input_rank': rank}
+        labels = {'kind': 'linear', 'bias': c['bias'], 'input_rank': rank, 'permuted': bool(c.get('permuted'))}
         return self._common(helper, module, x, rows, lambda R: R.reshape(-1, c['out']), labels, rank >= 3, 1.0, 1.0)
 
 
